@@ -61,6 +61,11 @@ theorem C01_encode_only_valueError (measure : Measure) (d : Doc) (ha : Accepted 
   · rw [h] at he; cases he
   · rw [h] at he; cases he; rfl
 
+/-- `shapesInQuantifier` is stated relative to the removed column indices; they always exist for an accepted
+document (`page_by` / `subline_by` name columns), so this is no hidden hypothesis -/
+theorem C01_removed_columns_exist (d : Doc) (ha : Accepted d) : ∃ removed, removedIdx d = .ok removed :=
+  removedIdx_total ha
+
 /-- the decidable form of the refusal condition (evaluated by the driver on every generated document) -/
 theorem C01_groupKeysContiguous_decidable (d : Doc) : groupKeysContiguous d = true ↔ GroupKeysContiguous d :=
   groupKeysContiguous_iff d
